@@ -6,7 +6,7 @@
    bounded method meets this contract (local minima, xatol), the cylinder/sphere and multi-layer Rege-Yang potentials, binary64
    rounding.  Property theorems only, each closed by `exact` + Print Assumptions. *)
 From Coq Require Import String Reals Lra QArith ZArith List Bool.
-From PG Require Import Lib.Num Charact.HkLib Gen.HkGen Charact.Hk.
+From PG Require Import Lib.Num Charact.HkLib Gen.HkGen Charact.Hk Charact.HkDispatch Charact.HkMono.
 Import ListNotations.
 Open Scope R_scope.
 
@@ -115,6 +115,53 @@ Theorem solved_width_solves_cheng_yang_equation_partial : forall minimise, minim
 Proof. exact solved_width_solves_cy_l. Qed.
 Print Assumptions solved_width_solves_cheng_yang_equation_partial.
 
+(* the Cheng-Yang loop, list level: solved width i solves the corrected equation with the coverage of point i,
+   theta_i = n_i / (1.01 max n), sf_i = 1 + ln(1 - theta_i) / theta_i *)
+Theorem cheng_yang_widths_solve_equation_partial : forall minimise, minimiser_contract minimise ->
+  forall hk_fun bound geo pressure loading i,
+  bound < 50 -> length pressure = length loading ->
+  (i < length (solve_hk_cy minimise hk_fun bound geo pressure loading))%nat ->
+  let sf := solve_hk_cy_sf_corr (solve_hk_cy_coverage RNum (list_max loading) (nth i loading 0)) in
+  (exists L, bound <= L <= 50 /\ exp (hk_fun L - sf) = nth i pressure 0) ->
+  bound <= nth i (solve_hk_cy minimise hk_fun bound geo pressure loading) 0 <= 50 /\
+  exp (hk_fun (nth i (solve_hk_cy minimise hk_fun bound geo pressure loading) 0) - sf) = nth i pressure 0.
+Proof. exact solve_hk_cy_each_l. Qed.
+Print Assumptions cheng_yang_widths_solve_equation_partial.
+
+(* the HIGH-LEVEL entry point psd_microporous: the dispatch (GENERATED by evaluating psd_microporous for every accepted model
+   name) is the documented one: 4 names -> (low-level function, use_cy) *)
+Theorem psd_microporous_dispatch_is_documented :
+  micro_psd_models = ["HK"; "HK-CY"; "RY"; "RY-CY"]%string /\
+  pore_geometries = ["slit"; "cylinder"; "sphere"]%string /\
+  psd_microporous_dispatch =
+    [("HK", (FamHK, false)); ("HK-CY", (FamHK, true)); ("RY", (FamRY, false)); ("RY-CY", (FamRY, true))]%string.
+Proof. exact dispatch_documented_l. Qed.
+Print Assumptions psd_microporous_dispatch_is_documented.
+Theorem psd_microporous_dispatch_by_name :
+  map fst psd_microporous_dispatch = micro_psd_models /\
+  (forall name f cy, dispatch_lookup name psd_microporous_dispatch = Some (f, cy) <-> name = (family_name f ++ cy_suffix cy)%string).
+Proof. exact dispatch_by_name_l. Qed.
+Print Assumptions psd_microporous_dispatch_by_name.
+Theorem psd_microporous_solver_per_name : forall minimise phi_hk phi_ry bound geo pressure loading,
+  micro_solve minimise "HK" phi_hk phi_ry bound geo pressure loading = Some (solve_hk minimise phi_hk bound geo pressure) /\
+  micro_solve minimise "HK-CY" phi_hk phi_ry bound geo pressure loading = Some (solve_hk_cy minimise phi_hk bound geo pressure loading) /\
+  micro_solve minimise "RY" phi_hk phi_ry bound geo pressure loading = Some (solve_hk minimise phi_ry bound geo pressure) /\
+  micro_solve minimise "RY-CY" phi_hk phi_ry bound geo pressure loading = Some (solve_hk_cy minimise phi_ry bound geo pressure loading) /\
+  (forall name, ~ In name micro_psd_models -> micro_solve minimise name phi_hk phi_ry bound geo pressure loading = None).
+Proof. exact micro_solve_table_l. Qed.
+Print Assumptions psd_microporous_solver_per_name.
+(* a width obtained through psd_microporous(name) solves the equation NAMED by `name`: potential of the family the name starts
+   with, Cheng-Yang term iff the name ends in "-CY" (PARTIAL: minimiser contract assumed, as above) *)
+Theorem psd_microporous_widths_solve_named_equation_partial : forall minimise, minimiser_contract minimise ->
+  forall name phi_hk phi_ry bound geo pressure loading solved i,
+  micro_solve minimise name phi_hk phi_ry bound geo pressure loading = Some solved ->
+  bound < 50 -> length pressure = length loading -> (i < length solved)%nat ->
+  (exists L, bound <= L <= 50 /\ exp (named_phi name phi_hk phi_ry L - named_sf name loading i) = nth i pressure 0) ->
+  bound <= nth i solved 0 <= 50 /\
+  exp (named_phi name phi_hk phi_ry (nth i solved 0) - named_sf name loading i) = nth i pressure 0.
+Proof. exact micro_widths_solve_named_equation_l. Qed.
+Print Assumptions psd_microporous_widths_solve_named_equation_partial.
+
 (* widths are non-decreasing in pressure on a branch where the potential increases; PARTIAL: which branch Brent lands on *)
 Theorem widths_nondecreasing_partial : forall (phi : R -> R) a b L1 L2 p1 p2,
   (forall x y, a <= x -> x < y -> y <= b -> phi x < phi y) ->
@@ -147,6 +194,55 @@ Theorem reported_width_brackets_partial : forall minimise, minimiser_contract mi
   nth i pressure 0 <= exp (phi (w + m_molecular_diameter _ mat)) <= nth (i + 1) pressure 0.
 Proof. exact reported_width_brackets_l. Qed.
 Print Assumptions reported_width_brackets_partial.
+
+(* MONOTONICITY of the slit potential on the whole attractive branch: the generated HK slit closure (and the published equation)
+   is strictly increasing in the slit distance beyond the geometric minimum d_g + d_h, for every temperature and every positive
+   parameter set (sigma = 0.8583742 d0 <= (2/5)^(1/6) d0 makes the wall potential convex from d0 on) *)
+Theorem hk_slit_potential_strictly_increasing : forall T (ads : hkads RNum) (mat : hkmat RNum),
+  0 < T -> physical_ads ads -> physical_mat mat ->
+  0 < a_surface_density _ ads -> 0 < m_surface_density _ mat ->
+  forall x y, a_molecular_diameter _ ads + m_molecular_diameter _ mat < x -> x < y ->
+  hk_slit_potential RNum T ads mat x < hk_slit_potential RNum T ads mat y.
+Proof. exact hk_slit_potential_increasing. Qed.
+Print Assumptions hk_slit_potential_strictly_increasing.
+
+(* hence: exact solutions of the HK slit equation are ordered like their pressures and a pressure has at most one solution
+   (no monotonicity premise; what remains un-modelled is only that Brent's minimiser finds the solution) *)
+Theorem hk_slit_widths_nondecreasing_in_pressure : forall T (ads : hkads RNum) (mat : hkmat RNum),
+  0 < T -> physical_ads ads -> physical_mat mat ->
+  0 < a_surface_density _ ads -> 0 < m_surface_density _ mat ->
+  forall L1 L2 p1 p2,
+  a_molecular_diameter _ ads + m_molecular_diameter _ mat < L1 ->
+  a_molecular_diameter _ ads + m_molecular_diameter _ mat < L2 ->
+  exp (hk_slit_potential RNum T ads mat L1) = p1 -> exp (hk_slit_potential RNum T ads mat L2) = p2 ->
+  (p1 <= p2 -> L1 <= L2) /\ (p1 < p2 -> L1 < L2) /\ (p1 = p2 -> L1 = L2).
+Proof. exact hk_slit_widths_ordered_l. Qed.
+Print Assumptions hk_slit_widths_nondecreasing_in_pressure.
+
+(* reported_width_brackets_partial with its monotonicity premise discharged (PARTIAL only through the minimiser contract) *)
+Theorem reported_width_brackets_hk_slit_partial : forall minimise, minimiser_contract minimise ->
+  forall T (ads : hkads RNum) (mat : hkmat RNum) pressure loading i a b,
+  let phi := hk_published_phi RNum (py_const RNum) T
+      (a_molecular_diameter _ ads) (a_polarizability _ ads) (a_magnetic_susceptibility _ ads) (a_surface_density _ ads)
+      (m_molecular_diameter _ mat) (m_polarizability _ mat) (m_magnetic_susceptibility _ mat) (m_surface_density _ mat) in
+  let d_min := a_molecular_diameter _ ads + m_molecular_diameter _ mat in
+  let solved := solve_hk minimise (hk_slit_potential RNum T ads mat) (hk_slit_bound RNum T ads mat) (hk_slit_geo RNum) pressure in
+  let reported := fst (fst (hk_slit_pipeline minimise T ads mat pressure loading)) in
+  0 < T -> physical_ads ads -> physical_mat mat ->
+  0 < a_surface_density _ ads -> 0 < m_surface_density _ mat -> d_min < 50 ->
+  length pressure = length loading ->
+  (i + 1 < length solved)%nat ->
+  d_min < a -> b <= 50 ->
+  (exists L, a <= L <= b /\ exp (phi L) = nth i pressure 0) ->
+  (exists L, a <= L <= b /\ exp (phi L) = nth (i + 1) pressure 0) ->
+  a <= nth i solved 0 <= b -> a <= nth (i + 1) solved 0 <= b ->
+  nth i pressure 0 <= nth (i + 1) pressure 0 ->
+  let w := nth i reported 0 in
+  w = (nth i solved 0 + nth (i + 1) solved 0) / 2 - m_molecular_diameter _ mat /\
+  nth i solved 0 - m_molecular_diameter _ mat <= w <= nth (i + 1) solved 0 - m_molecular_diameter _ mat /\
+  nth i pressure 0 <= exp (phi (w + m_molecular_diameter _ mat)) <= nth (i + 1) pressure 0.
+Proof. exact reported_width_brackets_nomono_l. Qed.
+Print Assumptions reported_width_brackets_hk_slit_partial.
 
 (* N pressures: at most N solved widths (the loop stops after the first width above 10/geo), one value fewer in each output *)
 Theorem hk_pipeline_lengths : forall minimise T (ads : hkads RNum) (mat : hkmat RNum) pressure loading,
